@@ -224,10 +224,42 @@ func observeOrdered(b *biscuit.Biscuit, pub ed25519.PublicKey, a ast.AuthContent
 	return o, again
 }
 
+// c12AddRuleChain adds a dependency chain of 2-5 rules (link_{i+1}($x) <- link_i($x)) in a
+// random order, with unrelated rules in between, to the authority block or the authorizer, a
+// check or policy that needs the end of the chain, and a probe for every link: an evaluator
+// whose result depends on the order in which rules are supplied shows it here.
+func c12AddRuleChain(r *rand.Rand, s *gen.Scenario) {
+	n := 2 + r.Intn(4)
+	x := ast.Var("x")
+	rules := []ast.Rule{{Head: ast.P("link_0", x), Body: []ast.Pred{ast.P("seed_fact", x)}}}
+	for i := 0; i < n; i++ {
+		rules = append(rules, ast.Rule{Head: ast.P(fmt.Sprintf("link_%d", i+1), x), Body: []ast.Pred{ast.P(fmt.Sprintf("link_%d", i), x)}})
+	}
+	rules = append(rules, ast.Rule{Head: ast.P("unrelated_z", x), Body: []ast.Pred{ast.P("unrelated_y", x)}})
+	r.Shuffle(len(rules), func(i, j int) { rules[i], rules[j] = rules[j], rules[i] })
+	seed := ast.P("seed_fact", ast.Int(int64(r.Intn(3))))
+	last := ast.P(fmt.Sprintf("link_%d", n), ast.Var("v0"))
+	if r.Intn(2) == 0 {
+		s.Blocks[0].Facts = append(s.Blocks[0].Facts, seed)
+		s.Blocks[0].Rules = append(s.Blocks[0].Rules, rules...)
+	} else {
+		s.Auth.Facts = append(s.Auth.Facts, seed)
+		s.Auth.Rules = append(s.Auth.Rules, rules...)
+	}
+	if r.Intn(2) == 0 {
+		s.Auth.Checks = append(s.Auth.Checks, ast.Check{Queries: []ast.Rule{{Head: ast.P("query"), Body: []ast.Pred{last}}}})
+	}
+	for i := 0; i <= n; i++ {
+		p := ast.P(fmt.Sprintf("link_%d", i), ast.Var("v0"))
+		s.Probes = append(s.Probes, ast.Rule{Head: ast.P(fmt.Sprintf("probe_link_%d", i), ast.Var("v0")), Body: []ast.Pred{p}})
+	}
+}
+
 func c12Run(c *core.C) {
 	r := c.R
 	for rep := 0; rep < 3; rep++ {
 		s := gen.NewScenario(r, 3, scenOpts)
+		c12AddRuleChain(r, s)
 		d := ref.Authorize(s.Blocks, s.Auth)
 		if d.Class == "" || d.Signature == "run-error" || d.Signature == "block-run-error" {
 			c.Count("skipped_not_error_free", 1)
